@@ -855,7 +855,18 @@ func ruleHdrMustDecode(p *Prog, r *Out) {
 			}
 		}
 		keep := p.runOPA(opaSpec{fn: f, fr: frp, kinds: kinds,
-			discharge:      func(in ssa.Instruction) bool { return p.isCallTo(in, d) },
+			discharge: func(in ssa.Instruction) bool {
+				if p.isCallTo(in, d) {
+					return true
+				}
+				// a frame turned away before its first field: rejectBlock / rejectBlockFrom
+				// decode the whole fragment (block-remainder-decoded holds them to that)
+				if sl.name == "(*serverConn).handleHeaderFrame" && p.isCallTo(in, "(*serverConn).rejectBlock", "(*serverConn).rejectBlockFrom") {
+					ok, _ := p.rejectBlockOK()
+					return ok
+				}
+				return false
+			},
 			terminate:      p.terminatesConn,
 			returnOK:       p.goAwayReturn,
 			dischargeBlock: func(b *ssa.BasicBlock) bool { return loopHd != nil && b == loopHd },
